@@ -874,7 +874,10 @@ def _check_em_conversion(unit, to_unit=None, unit_system=None, registry=None):
             cmks_in_unit = current_mks in unit.dimensions.atoms()
             cmks_in_unit_system = unit_system.units_map[current_mks]
             cmks_in_unit_system = cmks_in_unit_system is not None
-            if cmks_in_unit and cmks_in_unit_system:
+            if cmks_in_unit == cmks_in_unit_system:
+                # an SI unit in a system with a current unit, or a Gaussian
+                # unit in a system without one: stay in that family and only
+                # reduce to the unit the system uses for this dimension
                 em_map = (unit_system[unit.dimensions], unit, 1.0)
             else:
                 em_map = (None, em_unit, em_info[2])
